@@ -286,7 +286,8 @@ _reg_binary("hypot", _f2, exact=False, weight=1)
 _reg_binary("logaddexp", _f2, exact=False, weight=1)
 _reg_binary("copysign", _f2, weight=1)
 
-reg("isin", 2, lambda tp, a, b: {} if _isint(a) and _isint(b) and a.dtype == b.dtype and b.size > 0 else None,
+# (cubed's isin compares every block of x1 with every block of x2: kept to small operands)
+reg("isin", 2, lambda tp, a, b: {} if _isint(a) and _isint(b) and a.dtype == b.dtype and 0 < b.size <= 12 and a.size <= 40 and a.ndim <= 2 and b.ndim <= 1 else None,
     lambda a, b, p: np.isin(a, b), lambda a, b, p: _xp().isin(a, b), weight=1, tags=("elemwise",))
 
 
